@@ -412,6 +412,7 @@ func (v *vc) enterLoop(fr *frame, st *state, li *loopInfo, hdrEntry map[*ssa.Bas
 			}
 			nh := v.fresh(hname)
 			v.decl(nh, sort)
+			v.heapAxiom(nh, hname)
 			v.firstIter = append(v.firstIter, firstIterEq{pos: len(v.items), a: nh, b: v.getHeap(st, hname)})
 			n.heaps[hname] = nh
 		}
